@@ -433,6 +433,20 @@ func (e *Engine) RunWorkload(wl *Workload) {
 			f.desc = fmt.Sprintf("after op %d %s: %s", i, op, f.desc)
 			e.report(f, replay(nil))
 		}
+		// ... and no segment that lies wholly inside what has been deleted is kept (it would
+		// be in the metadata and in the directory alike, so the comparison above cannot see it)
+		for _, sg := range disk.MetaSnapshot().State.Segments {
+			if sg.SealTime.IsZero() {
+				continue // the tail
+			}
+			lo := sg.BaseIndex
+			if sg.MinIndex > lo {
+				lo = sg.MinIndex
+			}
+			if l.Empty() || sg.MaxIndex < l.First || lo > l.Last {
+				e.report(&failure{props: []string{"C13"}, class: "dead-segment-kept", desc: fmt.Sprintf("after op %d %s: sealed segment %s covering [%d,%d] is still in the metadata and on disk although the log is [%d,%d]", i, op, segment.FileName(sg), lo, sg.MaxIndex, l.First, l.Last)}, replay(nil))
+			}
+		}
 	}
 	rs.base.Store(l)
 	rs.inflight.Store(nil)
@@ -601,6 +615,12 @@ func (e *Engine) checkRecovery(wl *Workload, pt *Point, v simfs.Variant, img *si
 		f := classifyMismatch(pt, legal, obs)
 		f.desc = fmt.Sprintf("after crash at %s (%s, variant %s, in-flight %s): %s", pt.Call, pt.Phase, v.Name, opString(pt.InFlight), f.desc)
 		e.report(f, replay(map[string]any{"observed_first": obs.First, "observed_last": obs.Last, "meta_before_open": metaBrief(metaBefore), "meta_after_open": metaBrief(img.MetaSnapshot()), "files_before_open": preFiles}))
+		// C03 is about usability whatever was recovered: the WAL must take an append at its
+		// own LastIndex+1, a stable write, and come back from a clean reopen with it
+		if f := e.usabilityProbe(s, obs); f != nil {
+			f.desc = fmt.Sprintf("after crash at %s (%s, variant %s, in-flight %s), recovered state [%d,%d]: %s", pt.Call, pt.Phase, v.Name, opString(pt.InFlight), obs.First, obs.Last, f.desc)
+			e.report(f, replay(nil))
+		}
 		return
 	}
 	if len(legal) > 1 {
@@ -664,6 +684,32 @@ func (e *Engine) checkRecovery(wl *Workload, pt *Point, v simfs.Variant, img *si
 		}
 		e.explore(wl, pts, rng, depth+1, replay)
 	}
+}
+
+// usabilityProbe: model-free part of C03, used when the recovered state is not a legal one.
+func (e *Engine) usabilityProbe(s *session, obs *model.Obs) *failure {
+	rs := s.rs
+	rs.phase.Store("cont")
+	rs.base.Store(nil)
+	rs.inflight.Store(nil)
+	next := obs.Last + 1
+	lg := gen.Entry(rand.New(rand.NewSource(int64(next))), next, "probe", 24)
+	if res := drv.Apply(s.w, gen.Op{Kind: "append", Logs: []*raft.Log{lg}}); res.Err != nil {
+		return &failure{props: []string{"C03"}, class: "unusable-after-recovery:append:" + errClass(res.Err), desc: fmt.Sprintf("append at LastIndex+1=%d refused: %v", next, res.Err)}
+	}
+	if err := s.w.Set([]byte("probe"), []byte("x")); err != nil {
+		return &failure{props: []string{"C03"}, class: "unusable-after-recovery:set", desc: "stable Set failed: " + err.Error()}
+	}
+	s.close()
+	if err := s.open(); err != nil {
+		return &failure{props: []string{"C03"}, class: "unusable-after-recovery:reopen:" + errClass(err), desc: "clean reopen after one append failed: " + err.Error()}
+	}
+	var got raft.Log
+	if err := s.w.GetLog(next, &got); err != nil || model.LogDiff(&got, lg) != "" {
+		return &failure{props: []string{"C03"}, class: "unusable-after-recovery:readback", desc: fmt.Sprintf("entry %d appended after recovery does not read back after a clean reopen: %v", next, err)}
+	}
+	e.C.Count("usability_probes_after_mismatch", 1)
+	return nil
 }
 
 // continuation drives the recovered WAL through appends (forcing a rotation in
